@@ -6,7 +6,7 @@ RUNTIME_TB = ["R-SUM's specification table in lexlint/rules_runtime.py (the cont
 
 GEN_ALL = {"P1", "P2", "P3", "P4", "P5", "P6", "P7", "P8", "P9", "R-SAVED", "R-BSEARCH", "R-NAMES",
            "R-WHO", "R-PANIC", "R-CTOR", "R-SUGAR"}
-FLOORS = {"ops": 700, "munch": 240, "rulesets": 70, "rctx": 190, "eoi": 40, "classes": 330, "builtins": 33,
+FLOORS = {"ops": 700, "munch": 240, "rulesets": 70, "rctx": 190, "eoi": 40, "classes": 330, "builtins": 110,
           "prec": 100, "actions": 4, "modules": 10, "illformed": 50, "mix": 150}
 
 
